@@ -286,7 +286,7 @@ def obligations_reader(ctx, h):
                     prov_ok, why = False, 'the working directory is consulted for a source file'
             ctx.add(Obligation('%s/%s/path%d/paths-derive-from-the-including-file-or-include-dirs' % (fn, kind, pi), list(p.pc),
                                z3.BoolVal(prov_ok), 'INT', func=fn, kind='frame', cover=False,
-                               meta={'replay': rp, 'props': ['C14', 'C10'], 'what': 'read_lines consults a path outside the search rule: %s' % why}))
+                               meta={'replay': rp, 'props': ['C14', 'C10', 'C17'], 'what': 'read_lines consults a path outside the search rule: %s' % why}))
             # loop invariant: the variables the loop reads (the file name lines are attributed to, the search path) are the
             # same objects after the body, and the search path is an ordered list (first match must be well defined)
             inv_ok = all(st['vars_after'].get(k) is v_ or (isinstance(v_, str) and st['vars_after'].get(k) == v_) for k, v_ in st['vars_before'].items())
@@ -294,7 +294,7 @@ def obligations_reader(ctx, h):
             ordered = bool(search_paths) and all(isinstance(o, (list, tuple)) for o in search_paths) and not p.notes.get('set_iterated')
             ctx.add(Obligation('%s/%s/path%d/loop-variables-unchanged-and-search-path-ordered' % (fn, kind, pi), list(p.pc),
                                z3.BoolVal(bool(inv_ok and ordered)), 'INT', func=fn, kind='invariant', cover=False,
-                               meta={'replay': rp, 'props': ['C14', 'C15', 'C16', 'C10'],
+                               meta={'replay': rp, 'props': ['C14', 'C15', 'C16', 'C10', 'C17'],
                                      'what': 'read_lines changes the file name / search path while reading a file, or searches an unordered collection'}))
             ok = True
             why = ''
@@ -337,7 +337,7 @@ def obligations_reader(ctx, h):
             else:
                 ok, why = False, 'unexpected lines appended: %r' % (added,)
             ctx.add(Obligation('%s/%s/path%d/splice' % (fn, kind, pi), list(p.pc), z3.BoolVal(bool(ok)), 'INT', func=fn, kind='post',
-                               cover=False, meta={'replay': rp, 'props': ['C14', 'C10', 'C15'], 'what': why}))
+                               cover=False, meta={'replay': rp, 'props': ['C14', 'C10', 'C15', 'C17'], 'what': why}))
         ctx.add(Obligation('%s/%s/all-three-line-kinds-reached' % (fn, kind), [], z3.BoolVal(n_plain > 0 and n_inc > 0 and n_bytes > 0),
                            'finite', func=fn, kind='cover', cover=False, meta={'what': 'plain %d include %d include_bytes %d' % (n_plain, n_inc, n_bytes)}))
 
